@@ -310,33 +310,6 @@ Theorem C08_refuted_fill_var_rec :
 Proof. exact @refuted_fill_var_rec. Qed.
 Print Assumptions C08_refuted_fill_var_rec.
 
-Theorem C08_refuted_del_att_safe_mode :
-  refutes
-           {|
-             Collective.c_safe := true;
-             Collective.c_hcoll := false;
-             Collective.c_aggr := false;
-             Collective.c_dup := false;
-             Collective.c_nprocs := 2;
-             Collective.c_move_unit := 0
-           |} sh_define (Collective.A_meta Collective.M_del_att)
-           (Collective.LMeta
-              {|
-                Collective.m_e0 := 0;
-                Collective.m_e1 := 0;
-                Collective.m_e2 := 0;
-                Collective.m_e3 := 0
-              |}
-            :: Collective.LMeta
-                 {|
-                   Collective.m_e0 := Gen_consts.NC_ENOTVAR;
-                   Collective.m_e1 := 0;
-                   Collective.m_e2 := 0;
-                   Collective.m_e3 := 0
-                 |} :: nil).
-Proof. exact @refuted_del_att_safe. Qed.
-Print Assumptions C08_refuted_del_att_safe_mode.
-
 Theorem C08_refuted_rename_collective_header :
   refutes
            {|
@@ -510,13 +483,9 @@ Theorem C08_safe_mode_data_errors_uniform :
 Proof. exact @safe_mode_data_errors_uniform. Qed.
 Print Assumptions C08_safe_mode_data_errors_uniform.
 
-Theorem C08_crash_only_fill_var_rec :
+Theorem C08_never_crashes :
   forall (c : Collective.cfg) (sh : Collective.shared) (a : Collective.api)
            (g : Collective.gsum) (r : bool) (l : Collective.local),
-         Collective.cret c sh a g r l = Collective.Crash ->
-         a = Collective.A_fill_var_rec /\
-         Collective.c_safe c = false /\
-         (exists f : Collective.freq,
-            l = Collective.LFill f /\ (Collective.f_global f = true \/ Collective.f_valid f = false)).
-Proof. exact @crash_only_fill_var_rec. Qed.
-Print Assumptions C08_crash_only_fill_var_rec.
+         Collective.cret c sh a g r l <> Collective.Crash.
+Proof. exact @never_crashes. Qed.
+Print Assumptions C08_never_crashes.
